@@ -640,6 +640,26 @@ def main():
             cache[fname] = {"hash": hsh, "broken": b}
             broken.extend(b)
         _json.dump(cache, open(cpath, "w"))
+        # the tie / code-level proof files of those functions are regenerated with them (tools/tie_gen/gen_hazmat.py cuts the
+        # inlined inv_bitslice+xor tail out of the *current* generated text; the statements `<f>_eq`, `code_<f>` are fixed by
+        # the generator's template, Lean checks the proofs): a harmless rewrite inside the tail stays provable
+        import subprocess as _sp
+        gen_hz = os.path.join(os.path.dirname(os.path.dirname(os.path.abspath(__file__))), "tools", "tie_gen", "gen_hazmat.py")
+        for w_ in ("64", "32"):
+            dst = os.path.join(os.path.dirname(OUT.rstrip("/")), "Proofs", f"GenAesFs{w_}Hazmat.lean")
+            try:
+                r_ = _sp.run([sys.executable, gen_hz, w_, OUT], capture_output=True, text=True, timeout=300)
+            except _sp.TimeoutExpired:
+                r_ = None
+            if r_ is None or r_.returncode != 0 or not r_.stdout.strip():
+                broken.append(f"funcs: tie generator gen_hazmat.py {w_} failed on the regenerated text: " + ((r_.stderr.strip().splitlines() or ["?"])[-1][:200] if r_ else "timeout"))
+                continue
+            try:
+                cur = open(dst).read()
+            except OSError:
+                cur = None
+            if cur != r_.stdout:
+                open(dst, "w").write(r_.stdout)
     except Exception as e:  # the function translator must never take the other extractions down with it
         broken.append(f"funcs: translator crashed: {type(e).__name__} {e}")
 
